@@ -75,19 +75,20 @@ ASSUMPTIONS = [
 DECIDING = ["step:dagger", "step:controlled", "step:power_int", "step:power_frac", "step:exp",
             "hook:dagger", "hook:controlled", "hook:power", "hook:exp", "replace-params", "num_qubits", "params",
             "spelled-exponent", "power-exact", "power-beyond-2^53"]
-EXHAUSTIVE = {"k7_targets": "the listed witnesses of known finding K7", "pairs_exh": "all 81 ordered pairs of the modifiers {dagger, controlled(1), controlled(2), "
+EXHAUSTIVE = {"k7_targets": "the listed witnesses of known finding K7", "k8_targets": "the listed witnesses of known finding K8", "pairs_exh": "all 81 ordered pairs of the modifiers {dagger, controlled(1), controlled(2), "
                            "power(-1), power(0), power(2), power(1/2), power(1/3), exp} on each base gate of a fixed list "
                            "(3 base gates quick / 8 thorough)"}
 BUDGET = {"quick": (4, 34, 134), "thorough": (16, 220, 100000)}
 CASE_TIMEOUT = {"quick": 12, "thorough": 40}
 K1 = "K1-dagger-of-fractional-power"
 K7 = "K7-fractional-power-of-unevaluated-root"
+K8 = "K8-exponential-of-defective-float-matrix"
 TOL = 1e-8
 
 
 def classes(tier):
     return ["builtin", "custom", "custom_structured", "nonunitary", "siblings", "symbolic", "replace", "k1_targets",
-            "spelled", "bigpow", "near_structured", "spelled_entries", "k7_targets", "pairs_exh"]
+            "spelled", "bigpow", "near_structured", "spelled_entries", "k7_targets", "k8_targets", "pairs_exh"]
 
 
 # ----------------------------------------------------------------------------- reference
@@ -371,6 +372,57 @@ def _k7_applies(prev_gate, M_prev, exponent, q):
         return False
 
 
+def _struct_np(g):
+    """what the STRUCTURE of a gate object denotes, evaluated with numpy / LAPACK / scipy from the innermost gate's
+    own matrix (None where a non-integer power sits in the structure)"""
+    from orquestra.quantum.circuits import _gates as G
+
+    if isinstance(g, G.ControlledGate):
+        W = _struct_np(g.wrapped_gate)
+        return None if W is None else L.controlled(W, g.num_control_qubits)
+    if isinstance(g, G.Dagger):
+        W = _struct_np(g.wrapped_gate)
+        return None if W is None else L.adjoint(W)
+    if isinstance(g, G.Exponential):
+        W = _struct_np(g.wrapped_gate)
+        return None if W is None else L.expm(W)
+    if isinstance(g, G.Power):
+        v = _norm_exp(g.exponent)
+        W = _struct_np(g.wrapped_gate)
+        if W is None or v is None or v.denominator != 1 or abs(int(v)) > 64:
+            return None
+        return np.linalg.matrix_power(W, int(v))
+    return _matrix_of(g)
+
+
+def _k8_applies(new_gate, ref):
+    """mechanism of K8: the gate's structure is right - evaluated with scipy / LAPACK it gives the reference - and it
+    holds an Exponential whose wrapped matrix has floating-point entries and is (numerically) defective, and whose
+    own library matrix is not the exponential of that wrapped matrix: sympy's Matrix.exp went through a Jordan
+    form computed in floating point"""
+    from orquestra.quantum.circuits import _gates as G
+
+    try:
+        S = _struct_np(new_gate)
+        if S is None or S.shape != ref.shape or L.maxdiff(S, ref) > 1e-7 * max(1.0, float(np.abs(ref).max())):
+            return False
+        g = new_gate
+        while not isinstance(g, G.MatrixFactoryGate):
+            if isinstance(g, G.Exponential):
+                Ws = g.wrapped_gate.matrix
+                W = GC.to_np(Ws)
+                if any(e.has(sympy.Float) for e in Ws) and W.shape[0] >= 3:
+                    _vals, V = np.linalg.eig(W)
+                    own = GC.to_np(g.matrix)
+                    good = L.expm(W)
+                    if np.linalg.cond(V) > 1e6 and L.maxdiff(own, good) > 1e-6 * max(1.0, float(np.abs(good).max())):
+                        return True
+            g = g.wrapped_gate
+        return False
+    except Exception:
+        return False
+
+
 def _sympy_internal(exc):
     """exception raised from inside sympy (not from orquestra code)"""
     tb = exc.__traceback__
@@ -422,18 +474,20 @@ def judge_step(mon, kind, arg, prev_gate, M_prev, new_gate, where):
         if _entrywise(prev_gate):
             mon.note("dagger-judged-entrywise")
         if L.maxdiff(got, ref) > _step_tol(prev_gate, ref):
-            known = K1 if _k1_applies(prev_gate, M_prev, got) else None
+            known = K1 if _k1_applies(prev_gate, M_prev, got) else (K8 if _k8_applies(new_gate, ref) else None)
             mon.violation("dagger-matrix", f"({prev_gate}).dagger: max|M - adjoint| = {L.maxdiff(got, ref):.3e}", known=known)
-            return got if known else None
+            return got if known == K1 else None
     elif kind == "controlled":
         ref = L.controlled(M_prev, arg)
         if L.maxdiff(got, ref) > _step_tol(prev_gate, ref):
-            mon.violation("controlled-matrix", f"({prev_gate}).controlled({arg}): max diff {L.maxdiff(got, ref):.3e}")
+            mon.violation("controlled-matrix", f"({prev_gate}).controlled({arg}): max diff {L.maxdiff(got, ref):.3e}",
+                          known=K8 if _k8_applies(new_gate, ref) else None)
             return None
     elif kind == "exp":
         ref = L.expm(M_prev)
         if L.maxdiff(got, ref) > _tol(ref) * 10:
-            mon.violation("exp-matrix", f"({prev_gate}).exp: max|M - expm| = {L.maxdiff(got, ref):.3e}")
+            mon.violation("exp-matrix", f"({prev_gate}).exp: max|M - expm| = {L.maxdiff(got, ref):.3e}",
+                          known=K8 if _k8_applies(new_gate, ref) else None)
             return None
     elif kind in ("power_int", "power_frac", "power"):
         v = _norm_exp(arg)
@@ -1154,6 +1208,23 @@ def run_case(ctx):
         chain = [("power_frac", 1 / q1), ("power_frac", 1 / q2)]
         ctx.describe(f"k7 {name}.{_chain_str(chain)}", True)
         _run_chain(ctx, base, name, chain)
+        return
+    if cls == "k8_targets":
+        # keep the known finding K8 observed: the exponential of the inverse of a 4 x 4 Jordan block with eigenvalue
+        # -1-3j given in floating point (of 35 eigenvalues probed only this one makes sympy's float Jordan form fail),
+        # directly and through the re-association in which the thorough tier met it
+        from orquestra.quantum import circuits as C
+
+        targets = [[("power_int", -1), ("exp",)],
+                   [("dagger",), ("power_int", -1), ("exp",), ("controlled", 1), ("dagger",)]]
+        if ctx.index >= len(targets):
+            raise Exhausted()
+        a_, b_ = sympy.symbols("a b")
+        Mj = sympy.Matrix([[b_, 0, 0, 0], [a_, b_, 0, 0], [0, a_, b_, 0], [0, 0, a_, b_]])
+        base = C.CustomGateDefinition("JordanBlock4", Mj, (a_, b_))(1, (-1 - 3j))
+        chain = targets[ctx.index]
+        ctx.describe(f"k8 JordanBlock4(1, -1-3j).{_chain_str(chain)}", True)
+        _run_chain(ctx, base, "JordanBlock4(1, -1-3j)", chain)
         return
     if cls == "pairs_exh":
         nb = 3 if ctx.quick else len(BASES_EXH)
